@@ -424,8 +424,12 @@ fn reader<T: Words + Asset>(h: &Handle<T>, style: Style, sh: &Shared) {
                 let id0 = h.last_reload_id();
                 let v0 = validate(g.words());
                 let mut r = v0.clone();
-                for _ in 0..yields {
+                for k in 0..yields {
                     std::thread::yield_now();
+                    if k % 2 == 1 {
+                        // asking whether the asset was reloaded does not move its reload id either
+                        let _ = h.reloaded_global();
+                    }
                     let id = h.last_reload_id();
                     let v = validate(g.words());
                     if v != v0 {
